@@ -35,6 +35,8 @@ type c14Peer struct {
 	// Crossed: the listener closes first (the peer stays silent past the handler's read timeout) and the peer's
 	// own FIN still carries the acknowledgement number from before the listener's FIN - the FINs crossed
 	Crossed bool `json:"crossed,omitempty"`
+	// Again: the same address and port pair as the first peer, connecting again after that connection has ended
+	Again bool `json:"again,omitempty"`
 }
 
 func genC14(seed uint64, idx int, tier string) *Scenario {
@@ -45,6 +47,7 @@ func genC14(seed uint64, idx int, tier string) *Scenario {
 		np = 1
 	}
 	var peers []c14Peer
+	reinc := np >= 2 && r.Chance(0.2)
 	nc := rawNetConfig{GatewayRoute: true, GatewayARP: true}
 	for i := 0; i < np; i++ {
 		p := c14Peer{IP: fmt.Sprintf("10.0.%d.%d", r.Intn(3), 5+i), Port: r.Range(1024, 65535), DPort: r.Range(1, 65535)}
@@ -73,8 +76,19 @@ func genC14(seed uint64, idx int, tier string) *Scenario {
 			p.Port = peers[0].Port
 			p.DPort = peers[0].DPort
 		}
+		if i == 1 && reinc {
+			// the same client address and port connect again (new ISN) after their first connection has ended -
+			// listener-first or peer-first: the first connection's entry may still sit in the state table
+			p.IP, p.Port, p.DPort, p.ViaGW = peers[0].IP, peers[0].Port, peers[0].DPort, peers[0].ViaGW
+			p.Again = true
+			// (a new connection, not a retransmitted SYN: its ISN lies well ahead of everything the first one used)
+			p.ISN = peers[0].ISN + uint32(r.Range(70000, 1<<30))
+		}
 		peers = append(peers, p)
 		a := Actor{Kind: "tcppeer", Name: fmt.Sprintf("p%d", i), Src: fmt.Sprintf("%s:%d", p.IP, p.Port), Dst: fmt.Sprintf("127.0.0.1:%d", p.DPort)}
+		if p.Again {
+			a.Ops = append(a.Ops, Op{K: "sleep", Ms: []int64{1, 5000, 70000}[r.Intn(3)]})
+		}
 		a.Ops = append(a.Ops, Op{K: "syn"}, Op{K: "ack"})
 		ackData := r.Chance(0.12) // the segment that acknowledges the SYN-ACK already carries the first data
 		total := r.Range(0, 4000)
@@ -144,6 +158,11 @@ func genC14(seed uint64, idx int, tier string) *Scenario {
 	sc.Config = rawBaseConfig
 	sc.Schedule = r.Schedule(120)
 	sc.Class = fmt.Sprintf("peers=%d", np)
+	if reinc {
+		// strictly one peer after the other: the second connection of the pair starts when the first has ended
+		sc.Schedule = nil
+		sc.Class += " same-pair-again"
+	}
 	sc.DrainMs = 70000
 	return sc
 }
@@ -158,6 +177,7 @@ func (r *Rng) distinctSortedOrNil(k, n int) []int {
 // peerState is the scripted TCP peer at run time.
 type peerState struct {
 	c14Peer
+	started bool // its SYN has been sent
 	ip        net.IP
 	mac       net.HardwareAddr // the MAC frames to this peer must carry
 	seq       uint32           // next sequence number to send
@@ -256,8 +276,13 @@ func c14Execute(t *testing.T, sc *Scenario) *c14Run {
 				}
 				var ps *peerState
 				for _, p := range run.peers {
+					// (of two connections of one address/port pair, the one that has started last is the live one)
 					if p.ip.Equal(d.DstIP) && uint16(p.Port) == d.DPort && uint16(p.DPort) == d.SPort {
-						ps = p
+						// two connections of one address/port pair: a frame belongs to the one whose sequence space
+						// its acknowledgement number lies in (their ISNs are at least 70000 apart, streams < 5000 bytes)
+						if ps == nil || (d.Flags&tcpACK != 0 && d.Ack-p.ISN < d.Ack-ps.ISN) || (d.Flags&tcpACK == 0 && p.started) {
+							ps = p
+						}
 					}
 				}
 				if ps == nil {
@@ -343,6 +368,7 @@ func c14Execute(t *testing.T, sc *Scenario) *c14Run {
 			}
 			switch op.K {
 			case "syn":
+				ps.started = true
 				inject(ps, tcpSYN, nil)
 				ps.seq = ps.ISN + 1
 			case "ack":
@@ -462,6 +488,13 @@ func (ps *peerState) fail(format string, a ...interface{}) {
 
 func runC14(t *testing.T, sc *Scenario) Result {
 	res := okResult()
+	// two connections of one address/port pair only make sense one after the other and complete (a minimised
+	// script in which the second lost its SYN would send its data into the first connection): not judged otherwise
+	if pl, ok := sc.Params["peers"].([]interface{}); ok && len(pl) > 1 {
+		if m, ok := pl[1].(map[string]interface{}); ok && m["again"] == true && !(c14Complete(sc, 0) && c14Complete(sc, 1)) {
+			return res
+		}
+	}
 	run := c14Execute(t, sc)
 	obs := run.obs
 	res.Digest = traceDigest(obs, nil)
@@ -507,6 +540,23 @@ func runC14(t *testing.T, sc *Scenario) Result {
 			}
 			if fmt.Sprint(e.M["source-ip"]) == ps.IP && fmt.Sprint(e.M["source-port"]) == fmt.Sprint(ps.Port) && e.M["category"] != "portscan" {
 				evs = append(evs, e.M)
+			}
+		}
+		if ps.Again || (i == 0 && len(run.peers) > 1 && run.peers[1].Again) {
+			// two connections of one address/port pair: one event each, in the order of the connections
+			k := 0
+			if ps.Again {
+				k = 1
+			}
+			both := c14Complete(sc, 0) && c14Complete(sc, 1)
+			if both && len(evs) == 2 {
+				evs = evs[k : k+1]
+				res.probe("same-pair-connected-again", 1)
+			} else if both && ps.DPort != 80 && ps.DPort != 9200 {
+				res.Violate("same-pair-connections-misreported", "raw-tcp", fmt.Sprintf("peer %d: the address/port pair %s:%d -> %d connected twice, %d events carry it (first connection %d bytes, second %d bytes); frames of the second: %v", i, ps.IP, ps.Port, ps.DPort, len(evs), len(run.peers[0].stream), len(run.peers[1].stream), run.peers[1].frames))
+				return res
+			} else {
+				continue
 			}
 		}
 		// the listener's handler waits 60 s for data; a peer whose first data comes later than that after the
@@ -606,6 +656,9 @@ func c14Complete(sc *Scenario, i int) bool {
 			continue
 		}
 		ops := a.Ops
+		for len(ops) > 0 && ops[0].K == "sleep" {
+			ops = ops[1:] // (a connection that starts after a pause)
+		}
 		return len(ops) >= 3 && ops[0].K == "syn" && ops[1].K == "ack" && ops[len(ops)-1].K == "fin"
 	}
 	return false
